@@ -127,6 +127,9 @@ class TemplateEvaluator:
             return False
 
     def hole_or_splice(self, node, conv, env):
+        # a local that names a non-string expression (`name = repr(sc.name)` ... `{name}`) is that expression
+        if isinstance(node, ast.Name) and node.id in env and isinstance(env[node.id], ast.AST) and conv == "str":
+            node = env[node.id]
         # nested string-building expression?
         if isinstance(node, (ast.JoinedStr,)) or (isinstance(node, ast.IfExp) and self.is_stringy(node, env)) or \
                 (isinstance(node, ast.Name) and node.id in env and isinstance(env[node.id], list)) or \
@@ -216,6 +219,30 @@ class TemplateEvaluator:
                 em.raises = norm_text(st.exc) if st.exc is not None else "raise"
                 variants.append(em)
                 return
+            if isinstance(st, ast.If) and inloop and not st.orelse and st.body and isinstance(st.body[-1], ast.Continue) and rest:
+                # `if c: A; continue` followed by B inside the member loop is `if c: A else: B`
+                st2 = ast.copy_location(ast.If(test=st.test, body=list(st.body[:-1]) or [ast.copy_location(ast.Pass(), st)], orelse=list(rest)), st)
+                return run([st2], em, env, k, inloop)
+            if isinstance(st, ast.If) and inloop and st.orelse:
+                # both arms only bind the same locals (`if c: a = X; b = Y  else: a = X2; b = Y2`): the conditional expressions
+                # a = X if c else X2; b = Y if c else Y2 -- the spelling the emitters use inline in their f-strings
+                def binds(body):
+                    out = {}
+                    for b_ in body:
+                        if not (isinstance(b_, ast.Assign) and len(b_.targets) == 1 and isinstance(b_.targets[0], ast.Name) and b_.targets[0].id not in out):
+                            return None
+                        out[b_.targets[0].id] = b_.value
+                    return out
+                ba, bb = binds(st.body), binds(st.orelse)
+                if ba is not None and bb is not None and set(ba) == set(bb) and ba and not any(isinstance(env.get(n_), list) for n_ in ba) \
+                        and not any(isinstance(x_, ast.Name) and x_.id in ba for v_ in list(ba.values()) + list(bb.values()) for x_ in ast.walk(v_)):
+                    new_stmts = []
+                    for n_ in [b_.targets[0].id for b_ in st.body]:
+                        a_ = ast.Assign(targets=[ast.Name(id=n_, ctx=ast.Store())], value=ast.IfExp(test=st.test, body=ba[n_], orelse=bb[n_]))
+                        ast.copy_location(a_, st)
+                        ast.fix_missing_locations(a_)
+                        new_stmts.append(a_)
+                    return run(new_stmts + list(rest), em, env, k, inloop)
             if isinstance(st, ast.If) and inloop:
                 # inside a member loop: both arms only append text -> an inline conditional fragment
                 strvars = [n for n in env if isinstance(env[n], list)]
